@@ -23,7 +23,7 @@ type HWL = HeaderSlice<HeaderWithLength<T>, [T]>;
 type HSM = HeaderSlice<T, [MaybeUninit<T>]>;
 
 trait TrW: Tr { fn set(&mut self, v: u32); }
-impl TrW for T { fn set(&mut self, v: u32) { self.val = v; } }
+impl TrW for T { fn set(&mut self, v: u32) { self.set_val(v); } }
 
 #[allow(dead_code)]
 enum Slot {
@@ -380,13 +380,13 @@ fn run_op(w: &mut World, f: &[&str]) -> St {
                 else { match Arc::get_mut($a) { Some($m) => { $w; "some" } None => "none" } }
             }}; }
             let r = match &mut w.slots[s] {
-                A(a) => gm!(a, m => m.val = v),
+                A(a) => gm!(a, m => m.set_val(v)),
                 AB(a) => gm!(a, m => m.val = v as u64),
                 AD(a) => gm!(a, m => m.set(v)),
-                AS(a) => gm!(a, m => if let Some(x) = m.first_mut() { x.val = v }),
-                AU(a) => gm!(a, m => if let Some(x) = m.slice.first_mut() { x.val = v }),
-                AH(a) => gm!(a, m => m.header.val = v),
-                AW(a) => gm!(a, m => m.header.header.val = v),
+                AS(a) => gm!(a, m => if let Some(x) = m.first_mut() { x.set_val(v) }),
+                AU(a) => gm!(a, m => if let Some(x) = m.slice.first_mut() { x.set_val(v) }),
+                AH(a) => gm!(a, m => m.header.set_val(v)),
+                AW(a) => gm!(a, m => m.header.header.set_val(v)),
                 _ => bad!(),
             };
             St::Ok(r.to_string())
@@ -397,8 +397,8 @@ fn run_op(w: &mut World, f: &[&str]) -> St {
             match (&w.slots[s], f[0]) { (A(_), _) | (O(_), "makeMut") => {} _ => bad!() }
             if cp { clone_panic_at(0); }
             let r = catch_unwind(AssertUnwindSafe(|| lib(|| match &mut w.slots[s] {
-                A(a) => if f[0] == "makeMut" { Arc::make_mut(a).val = v } else { Arc::make_unique(a).val = v },
-                O(o) => o.make_mut().val = v,
+                A(a) => if f[0] == "makeMut" { Arc::make_mut(a).set_val(v) } else { Arc::make_unique(a).set_val(v) },
+                O(o) => o.make_mut().set_val(v),
                 _ => {}
             })));
             clone_panic_at(-1);
@@ -453,9 +453,9 @@ fn run_op(w: &mut World, f: &[&str]) -> St {
         "uniqWrite" if n == 3 => {
             let s = idx!(f[1]); let v: u32 = match f[2].parse() { Ok(x) => x, Err(_) => bad!() };
             match &mut w.slots[s] {
-                Q(q) => q.val = v,
-                QS(q) => if let Some(x) = q.first_mut() { x.val = v },
-                QH(q) => q.header.val = v,
+                Q(q) => q.set_val(v),
+                QS(q) => if let Some(x) = q.first_mut() { x.set_val(v) },
+                QH(q) => q.header.set_val(v),
                 _ => bad!(),
             }
             St::Ok(String::new())
@@ -531,7 +531,7 @@ fn run_op(w: &mut World, f: &[&str]) -> St {
                             "read" => acc.push_str(&format!("val=h{}{};", show_t(a.header()), show_slice(a.slice()))),
                             "panic" => panic!("scripted callback panic"),
                             "clone" => { let k = arg!(act); if k < NSLOTS && others!().is_empty(k) { others!().slots[k] = Th(Arc::protected_into_thin(a.clone())); acc.push_str("cloned;") } else { acc.push_str("skip;") } }
-                            "getMut" => { let v = arg!(act) as u32; match Arc::get_mut(a) { Some(m) => { m.header_mut().val = v; acc.push_str("mut=some;") } None => acc.push_str("mut=none;") } }
+                            "getMut" => { let v = arg!(act) as u32; match Arc::get_mut(a) { Some(m) => { m.header_mut().set_val(v); acc.push_str("mut=some;") } None => acc.push_str("mut=none;") } }
                             "replace" => {
                                 let k = arg!(act);
                                 if k < NSLOTS && k != s && matches!(others!().slots[k], Th(_)) {
